@@ -581,8 +581,18 @@ def run_hist(self, case):
     import stackscope
 
     n = [0]
-    tags = {}
     seen = {}
+
+    class _Tags(dict):
+        """id -> tag; every tagged object is kept alive for the whole run, so that no id is ever reused by a later object
+        (stacks dropped by a second pop_all() free their callbacks, and contextlib's wrapper of a later one can get such an id)"""
+        keep: list = []
+
+        def __setitem__(s, k, v):
+            super().__setitem__(k, v)
+
+    tags = _Tags()
+    keep = []
 
     class M:
         def __enter__(s):
@@ -610,6 +620,7 @@ def run_hist(self, case):
             moved = contextlib.ExitStack()
             for ev in case["evs"]:
                 if ev[0] == "pop_all":
+                    keep.append(moved)
                     moved = stack.pop_all()
                     evs_model.append(["pop_all"])
                     continue
@@ -618,16 +629,19 @@ def run_hist(self, case):
                 if ev[0] in ("enter_context", "push_mgr"):
                     m = M()
                     tags[id(m)] = f"m{k}"
+                    keep.append(m)
                     (stack.enter_context if ev[0] == "enter_context" else stack.push)(m)
                 elif ev[0] == "callback":
                     def cb():
                         pass
                     tags[id(cb)] = f"w{k}"
+                    keep.append(cb)
                     stack.callback(cb)
                 else:
                     def fn(*a):
                         return False
                     tags[id(fn)] = f"f{k}"
+                    keep.append(fn)
                     stack.push(fn)
                 evs_model.append([ev[0], k])
             # the probe: registered `unwind` positions from the end, so that it runs after `unwind`-1 later callbacks were popped
@@ -637,6 +651,7 @@ def run_hist(self, case):
                     seen["st"] = stackscope.extract(box[0])
                 n[0] += 1
                 tags[id(probe)] = f"w{n[0]}"
+                keep.append(probe)
                 stack.callback(probe)
                 evs_model.append(["callback", n[0]])
                 for _ in range(nu - 1):
@@ -644,6 +659,7 @@ def run_hist(self, case):
                     def later():
                         pass
                     tags[id(later)] = f"w{n[0]}"
+                    keep.append(later)
                     stack.callback(later)
                     evs_model.append(["callback", n[0]])
                 evs_model.extend([["pop_one"]] * nu)
